@@ -68,7 +68,35 @@ fn synthetic_extra() -> Vec<u8> {
     meta.extend((sl.len() as u32).to_be_bytes());
     meta.extend(dl);
     meta.extend(sl);
-    let opts = crate::synth::SynthOpts { extra: vec![(Tag::new(b"SVG "), svg), (Tag::new(b"meta"), meta)], ..Default::default() };
+    // name, version 1: family names whose language ids point at language-tag records of 2, 29, 30, 31, 32 and 64
+    // characters and one with a non-ASCII character (UTF-16BE strings)
+    let utf16 = |t: &str| -> Vec<u8> { t.encode_utf16().flat_map(|u| u.to_be_bytes()).collect() };
+    let long = "x".repeat(64);
+    let tags: Vec<String> = vec!["en".into(), long[..29].into(), long[..30].into(), long[..31].into(), long[..32].into(), long.clone(), "zh-\u{4e2d}".into()];
+    let mut storage: Vec<u8> = utf16("Fam");
+    let mut tag_recs = vec![];
+    for t in &tags {
+        let b = utf16(t);
+        tag_recs.push((b.len() as u16, storage.len() as u16));
+        storage.extend(b);
+    }
+    let count = tags.len() as u16 + 1;
+    let mut name: Vec<u8> = vec![0, 1];
+    name.extend(count.to_be_bytes());
+    name.extend((6 + 12 * count + 2 + 4 * tags.len() as u16).to_be_bytes());
+    for i in 0..count {
+        // platform 0 (Unicode), encoding 4, language 0x8000 + i (the last one points past the tag records), name id 1
+        for v in [0u16, 4, 0x8000 + i, 1, 6, 0] {
+            name.extend(v.to_be_bytes());
+        }
+    }
+    name.extend((tags.len() as u16).to_be_bytes());
+    for (l, o) in &tag_recs {
+        name.extend(l.to_be_bytes());
+        name.extend(o.to_be_bytes());
+    }
+    name.extend(storage);
+    let opts = crate::synth::SynthOpts { extra: vec![(Tag::new(b"SVG "), svg), (Tag::new(b"meta"), meta), (Tag::new(b"name"), name)], ..Default::default() };
     crate::synth::truetype_font(&[Glyph::Empty, tri(1), tri(2), tri(3)], &opts).expect("synthetic extra font")
 }
 
